@@ -647,11 +647,12 @@ def shape(result, graph):
 # copy flags: behavioural extraction (robust against refactoring of the sources)
 # ------------------------------------------------------------------------------------------
 PROBE_TEXT = """
-package PP constant Real k(min = 1) = 3; function f input Real u; output Real y; algorithm y := u * 2; end f; end PP;
+package PP constant Real k(min = 1) = 3; function f input Real u; output Real y; algorithm y := u * 2; end f;
+  record S Real x; Real v = 0; end S; function fs input PP.S s; output Real e; algorithm e := s.v * s.v; end fs; end PP;
 model PB Real b(start = 1); end PB;
 model PS parameter Real p = 1; Real s; equation s = p; end PS;
 model PR replaceable model R = PS; R r; end PR;
-model PM extends PB; PS c(p = 5); Real x; equation x = PP.k + PP.f(b) + c.s; end PM;
+model PM extends PB; PS c(p = 5); Real x; PP.S st; equation x = PP.k + PP.f(b) + c.s + PP.fs(st); end PM;
 model PD extends PR(redeclare model R = PB); end PD;
 """
 
@@ -682,7 +683,8 @@ def probe_flags():
                     todo.append(v)
         return seen
     root_fp = reach(t.classes["PM"]) | reach(t.classes["PD"])
-    inner_fp = reach(t.classes["PB"]) | reach(t.classes["PS"]) | reach(t.classes["PR"]) | reach(t.classes["PP"].classes["f"])
+    inner_fp = reach(t.classes["PB"]) | reach(t.classes["PS"]) | reach(t.classes["PR"]) | reach(t.classes["PP"].classes["f"]) \
+        | reach(t.classes["PP"].classes["fs"]) | reach(t.classes["PP"].classes["S"])
     const_fp = reach(t.classes["PP"].symbols["k"])
     for name in ("PM", "PD"):
         try:
